@@ -215,7 +215,17 @@ def check(plan, ctx):
     op = plan["op"]
     ctx.cls("op_" + op)
     if op == "rbind":
+        ctx.cls(f"rbind_{len(plan['frames'])}_frames", *("rbind_kind_" + c["kind"] for f in plan["frames"] for c in f["cols"]))
+        allnames = {c["name"] for f in plan["frames"] for c in f["cols"]}
+        if any(f["n"] and allnames - {c["name"] for c in f["cols"]} for f in plan["frames"]):
+            ctx.cls("rbind_nonempty_input_lacks_a_column")
         return _check_rbind(plan, ctx)
+    if "frame" in plan:
+        nm = [c["name"] for c in plan["frame"]["cols"]]
+        if any(a != b and a in b for a in nm + ["_rid_"] for b in nm + ["_rid_"]):
+            ctx.cls("column_names_contained_in_one_another")
+        if op == "unselect" and len(plan["names"]) == 1:
+            ctx.cls("unselect_single_name")
     data = _mk(plan["frame"])
     src = build.table(data)
     before = build.snap_frame(data)
